@@ -39,6 +39,8 @@ NAN = GLOBAL('np.nan')
 
 def build(ctx):
     m = ctx.mod('_pandas')
+    # replays are fixed native batteries per obligation family (the counterexamples are interpretations of uninterpreted pandas operations)
+    ctx.default_meta = dict(replay_without_model=True)
     bf = base_facts
     DF, METHOD, AXIS, LIMIT = [Const(n, PV) for n in ('DF', 'METHOD', 'AXIS', 'LIMIT')]
     RES, MM = Const('RES', PV), Const('M', PV)
